@@ -316,8 +316,8 @@ def apply_op(idnt, op, log=None):
                     new = int(cur)
                 else:
                     new = cur
-                if key == "segment" and isinstance(new, (bool, float)):
-                    new = cur       # a segment must stay integral
+                if key in ("segment", "optimal_fit_num_samples"):
+                    new = cur       # must stay integral
                 if op.get("route") == "fit":
                     idnt.fit_model(**{key: new})
                 else:
@@ -807,9 +807,10 @@ def gen_nudge(rng):
           "route": rng.choice(["fit", "fit", "setitem"])}
     if rng.random() < 0.2:
         # equal value, other type (False <-> 0, 1 <-> 1.0, True <-> 1)
+        # (only settings that are numbers by nature: a sample count or a
+        # segment index must stay integral)
         return {"op": "retype", "key": rng.choice(
-            ["weight_cp", "gcf_k", "optimal_fit_edelta", "segment",
-             "optimal_fit_num_samples"]),
+            ["weight_cp", "gcf_k", "optimal_fit_edelta"]),
             "route": rng.choice(["fit", "setitem"])}
     if key == "range_x":
         op["index"] = rng.randrange(2)
